@@ -116,9 +116,9 @@ def aead_spec(draw, modes_=("GCM", "CCM", "EAX", "SIV", "OCB", "ChaCha20_Poly130
         return s
     s["key"] = draw(key_for(cipher))
     if cipher == "ARC2":
-        s["ek"] = draw(st.sampled_from([1024, 40, 128, 777]))
+        s["ek"] = draw(st.one_of(st.sampled_from([1024, 40, 128, 777]), st.integers(40, 1024)))
     if mode == "GCM":
-        nl = draw(st.one_of(st.just(12), st.sampled_from([1, 11, 12, 13, 15, 16, 17, 32, 64]), st.integers(1, 64)))
+        nl = draw(st.one_of(st.just(12), st.sampled_from([1, 11, 12, 13, 15, 16, 17, 32, 64]), st.integers(1, 64), st.sampled_from([127, 128, 129, 255, 256, 1000])))
         s["nonce"] = draw(gen.data_of(st.just(nl)))
         s["mac_len"] = draw(st.one_of(st.just(16), st.integers(4, 16)))
     elif mode == "CCM":
